@@ -960,6 +960,7 @@ Require Verif.Tie.MavenRange.
 Require Verif.Tie.NugetRange.
 Require Verif.Tie.PypiRange.
 Require Verif.Tie.RpmRange.
+Require Verif.Tie.Extra.Composer.
 Definition C02_tie_alpine_VersionRange_String := @Verif.Tie.AlpineRange.tie_alpine_VersionRange_String.
 Definition C02_tie_alpine_VersionRange_Contains := @Verif.Tie.AlpineRange.tie_alpine_VersionRange_Contains.
 Definition C02_tie_alpm_matches := @Verif.Tie.AlpmRange.tie_alpm_matches.
@@ -1009,6 +1010,8 @@ Definition C02_tie_pypi_VersionRange_Contains := @Verif.Tie.PypiRange.tie_pypi_V
 Definition C02_tie_rpm_satisfiesRPMConstraint := @Verif.Tie.RpmRange.tie_rpm_satisfiesRPMConstraint.
 Definition C02_tie_rpm_satisfiesRPMConstraint_model := @Verif.Tie.RpmRange.tie_rpm_satisfiesRPMConstraint_model.
 Definition C02_tie_rpm_contains := @Verif.Tie.RpmRange.tie_rpm_contains.
-Definition C02_ties_all := (C02_tie_alpine_VersionRange_Contains, (C02_tie_alpine_VersionRange_String, (C02_tie_alpm_contains, (C02_tie_alpm_matches, (C02_tie_alpm_matches_model, (C02_tie_apache_contains, (C02_tie_apache_matches, (C02_tie_apache_matches_model, (C02_tie_cargo_caret, (C02_tie_cargo_satisfiesConstraint, (C02_tie_cargo_tilde, (C02_tie_conan_VersionRange_Contains, (C02_tie_conan_VersionRange_String, (C02_tie_conan_VersionRange_constraintSatisfied, (C02_tie_conan_VersionRange_constraintSatisfied_model, (C02_tie_conan_VersionRange_groupSatisfied, (C02_tie_conan_isOperator, (C02_tie_cran_contains, (C02_tie_cran_contains_model, (C02_tie_cran_satisfiesConstraint, (C02_tie_debian_contains, (C02_tie_debian_satisfiesConstraint, (C02_tie_debian_satisfiesConstraint_model, (C02_tie_gem_VersionRange_Contains, (C02_tie_gem_VersionRange_String, (C02_tie_gentoo_contains, (C02_tie_gentoo_contains_model, (C02_tie_gentoo_matches, (C02_tie_github_contains, (C02_tie_github_matches, (C02_tie_github_matches_model, (C02_tie_golang_VersionRange_Contains, (C02_tie_golang_VersionRange_String, (C02_tie_hex_contains, (C02_tie_hex_matches, (C02_tie_hex_matches_model, (C02_tie_mattermost_contains, (C02_tie_mattermost_matches, (C02_tie_mattermost_matches_model, (C02_tie_maven_contains, (C02_tie_maven_satisfiesConstraint, (C02_tie_nuget_contains, (C02_tie_nuget_matches, (C02_tie_nuget_matches_model, (C02_tie_pypi_VersionRange_Contains, (C02_tie_pypi_VersionRange_String, (C02_tie_rpm_contains, (C02_tie_rpm_satisfiesRPMConstraint, C02_tie_rpm_satisfiesRPMConstraint_model)))))))))))))))))))))))))))))))))))))))))))))))).
+Definition C02_tie_composer_normalizeOperator := @Verif.Tie.Extra.Composer.tie_composer_normalizeOperator.
+Definition C02_tie_composer_normalizeOperator_sat := @Verif.Tie.Extra.Composer.tie_composer_normalizeOperator_sat.
+Definition C02_ties_all := (C02_tie_alpine_VersionRange_Contains, (C02_tie_alpine_VersionRange_String, (C02_tie_alpm_contains, (C02_tie_alpm_matches, (C02_tie_alpm_matches_model, (C02_tie_apache_contains, (C02_tie_apache_matches, (C02_tie_apache_matches_model, (C02_tie_cargo_caret, (C02_tie_cargo_satisfiesConstraint, (C02_tie_cargo_tilde, (C02_tie_composer_normalizeOperator, (C02_tie_composer_normalizeOperator_sat, (C02_tie_conan_VersionRange_Contains, (C02_tie_conan_VersionRange_String, (C02_tie_conan_VersionRange_constraintSatisfied, (C02_tie_conan_VersionRange_constraintSatisfied_model, (C02_tie_conan_VersionRange_groupSatisfied, (C02_tie_conan_isOperator, (C02_tie_cran_contains, (C02_tie_cran_contains_model, (C02_tie_cran_satisfiesConstraint, (C02_tie_debian_contains, (C02_tie_debian_satisfiesConstraint, (C02_tie_debian_satisfiesConstraint_model, (C02_tie_gem_VersionRange_Contains, (C02_tie_gem_VersionRange_String, (C02_tie_gentoo_contains, (C02_tie_gentoo_contains_model, (C02_tie_gentoo_matches, (C02_tie_github_contains, (C02_tie_github_matches, (C02_tie_github_matches_model, (C02_tie_golang_VersionRange_Contains, (C02_tie_golang_VersionRange_String, (C02_tie_hex_contains, (C02_tie_hex_matches, (C02_tie_hex_matches_model, (C02_tie_mattermost_contains, (C02_tie_mattermost_matches, (C02_tie_mattermost_matches_model, (C02_tie_maven_contains, (C02_tie_maven_satisfiesConstraint, (C02_tie_nuget_contains, (C02_tie_nuget_matches, (C02_tie_nuget_matches_model, (C02_tie_pypi_VersionRange_Contains, (C02_tie_pypi_VersionRange_String, (C02_tie_rpm_contains, (C02_tie_rpm_satisfiesRPMConstraint, C02_tie_rpm_satisfiesRPMConstraint_model)))))))))))))))))))))))))))))))))))))))))))))))))).
 Print Assumptions C02_ties_all.
 (* ====== ties to the source: END ====== *)
